@@ -44,6 +44,7 @@ class Ctx:
         self.floors = {}
         self.notes = []
         self.extra = {}
+        self.cache = {}
 
     # -- recording --------------------------------------------------------
     def ok(self, rule, instance, where, detail=''):
